@@ -48,7 +48,7 @@ function ser(v) {
       if (v === null) return 'null';
       if (tags.has(v)) return tags.get(v);
       if (v instanceof Budget) return 'Budget';
-      if (Object.prototype.toString.call(v) === '[object Error]') return 'error:' + v.name;
+      if (Object.prototype.toString.call(v) === '[object Error]') return String(v.name);
       if (Array.isArray(v)) return '[' + v.map(ser).join(',') + ']';
       return 'object';
   }
